@@ -730,11 +730,19 @@ fn exec(dbs: &Mutex<Dbs>, cmd: &Value) -> Result<Value, String> {
                     decisions.insert(tr.decisions.clone());
                     panics.extend(pan.lock().unwrap().drain(..));
                 }
+                let mut after_out: Vec<String> = Vec::new();
                 for c in &after {
                     let r = run_one(&local, c);
-                    if r.get("panic").is_some() { panics.push(r); }
+                    if r.get("panic").is_some() { panics.push(r.clone()); }
+                    if c.get("observe").and_then(|v| v.as_bool()).unwrap_or(false) {
+                        after_out.push(r.to_string());
+                    }
                 }
-                let key = index_key(&db);
+                let mut key = index_key(&db);
+                if !after_out.is_empty() {
+                    key.push_str(";;OBS=");
+                    key.push_str(&after_out.join("|"));
+                }
                 let inv = invariants(&db);
                 let e = outcomes.entry(key).or_insert((0, seed, inv));
                 e.0 += 1;
